@@ -12,27 +12,61 @@
 //! Rust-side oracles: no panic / no error on an infallible writer; in 256-colour mode every selected
 //! palette index lies in 16..=255 (cube and grey ramp, C20).
 //! `VERIF_REPLAY`: only the recorded command / stream is re-run, through the real encoder and both lines.
+//!
+//! INDEPENDENCE OF THE EXPECTATION. Every command is generated as RAW pieces (`Spec`: underline style
+//! index 0..5, five flag booleans, colour bytes, DEC mode as an index into the harness' own table of
+//! xterm mode numbers, positions / counts as plain integers). The crate value is built from the pieces
+//! through the public constructors (`Spec::build`), and the request for the Lean model is written from
+//! the SAME raw pieces (`Spec::tok`) — never by reading the crate value back through the crate's own
+//! accessors or conversions (`FaceAttrs::underline()` / `contains()`, `mode as usize`, `Position`
+//! fields …): an expectation that goes through them inherits their defects.
 use serde_json::{Value, json};
 use std::collections::HashSet;
 use std::io::Write;
 use surf_n_term::{
-    Color as _, Face, FaceAttrs, FaceModify, Position, RGBA, UnderlineStyle,
+    Face, FaceAttrs, FaceModify, Position, RGBA, UnderlineStyle,
     encoder::{ColorDepth, Encoder, TTYEncoder},
     terminal::{DecMode, TerminalCaps, TerminalColor, TerminalCommand},
 };
 use verif_harness::{Cfg, r#gen::Rng, guarded, out::Out, out::hex};
 
-const MODES: [DecMode; 9] = [
-    DecMode::VisibleCursor,
-    DecMode::AutoWrap,
-    DecMode::SixelScrolling,
-    DecMode::MouseReport,
-    DecMode::MouseMotions,
-    DecMode::MouseSGR,
-    DecMode::AltScreen,
-    DecMode::SynchronizedOutput,
-    DecMode::BracketedPaste,
+
+/// DEC private modes of the crate with their numbers, written here from the documentation and NOT taken
+/// from the crate (`mode as usize` is what the encoder itself uses):
+/// xterm ctlseqs "DEC Private Mode Set (DECSET)": 7 = Auto-Wrap Mode (DECAWM), 25 = Show cursor
+/// (DECTCEM), 80 = Sixel Display Mode / sixel scrolling (DECSDM), 1000 = Send Mouse X & Y on button
+/// press and release, 1003 = Use All Motion Mouse Tracking, 1006 = Enable SGR Mouse Mode, 1049 = Save
+/// cursor and use Alternate Screen Buffer, 2004 = Set bracketed paste mode; 2026 = synchronized output
+/// (terminal-wg / contour specification, adopted by kitty, foot, wezterm, iTerm2 …).
+const MODES: [(DecMode, usize); 9] = [
+    (DecMode::VisibleCursor, 25),
+    (DecMode::AutoWrap, 7),
+    (DecMode::SixelScrolling, 80),
+    (DecMode::MouseReport, 1000),
+    (DecMode::MouseMotions, 1003),
+    (DecMode::MouseSGR, 1006),
+    (DecMode::AltScreen, 1049),
+    (DecMode::SynchronizedOutput, 2026),
+    (DecMode::BracketedPaste, 2004),
 ];
+const ALT_SCREEN: usize = 6;
+/// exhaustive on purpose: a variant added to `DecMode` makes the harness fail to compile until the table
+/// above gets its documented number
+#[allow(dead_code)]
+fn modes_table_is_complete(m: DecMode) -> usize {
+    let i = match m {
+        DecMode::VisibleCursor => 0,
+        DecMode::AutoWrap => 1,
+        DecMode::SixelScrolling => 2,
+        DecMode::MouseReport => 3,
+        DecMode::MouseMotions => 4,
+        DecMode::MouseSGR => 5,
+        DecMode::AltScreen => 6,
+        DecMode::SynchronizedOutput => 7,
+        DecMode::BracketedPaste => 8,
+    };
+    MODES[i].1
+}
 
 fn enc(caps: TerminalCaps, cmd: TerminalCommand) -> Result<Vec<u8>, ()> {
     guarded(|| {
@@ -159,15 +193,19 @@ fn reductions(c: RGBA) -> (usize, usize) {
     (pal, lvl)
 }
 
-fn color_tok(c: Option<RGBA>) -> String {
+type Rgba = [u8; 4];
+
+fn color_tok(c: Option<Rgba>) -> String {
     match c {
         None => "-".to_string(),
-        Some(c) => {
-            let [r, g, b, a] = c.to_rgba();
-            let (pal, lvl) = reductions(c);
+        Some([r, g, b, a]) => {
+            let (pal, lvl) = reductions(RGBA::new(r, g, b, a));
             format!("{r},{g},{b},{a},{pal},{lvl}")
         }
     }
+}
+fn rgba(c: Option<Rgba>) -> Option<RGBA> {
+    c.map(|[r, g, b, a]| RGBA::new(r, g, b, a))
 }
 
 fn tri(v: Option<bool>) -> &'static str {
@@ -180,16 +218,8 @@ fn tri(v: Option<bool>) -> &'static str {
 fn bit(v: bool) -> &'static str {
     if v { "1" } else { "0" }
 }
-fn under_num(u: UnderlineStyle) -> usize {
-    match u {
-        UnderlineStyle::None => 0,
-        UnderlineStyle::Straight => 1,
-        UnderlineStyle::Double => 2,
-        UnderlineStyle::Curly => 3,
-        UnderlineStyle::Dotted => 4,
-        UnderlineStyle::Dashed => 5,
-    }
-}
+/// underline styles by the number the model uses (0 none, 1 straight, 2 double, 3 curly, 4 dotted,
+/// 5 dashed = the `4:x` sub-parameter of xterm / kitty)
 const UNDERS: [UnderlineStyle; 6] = [
     UnderlineStyle::None,
     UnderlineStyle::Straight,
@@ -198,79 +228,206 @@ const UNDERS: [UnderlineStyle; 6] = [
     UnderlineStyle::Dotted,
     UnderlineStyle::Dashed,
 ];
+/// flags in the order bold, italic, blink, reverse, strike
+const FLAGS: [FaceAttrs; 5] = [FaceAttrs::BOLD, FaceAttrs::ITALIC, FaceAttrs::BLINK, FaceAttrs::REVERSE, FaceAttrs::STRIKE];
 
-/// request text of a command (the Lean side parses it into `SurfModel.Vt.Cmd`)
-fn cmd_tok(cmd: &TerminalCommand) -> Option<String> {
-    use TerminalCommand::*;
-    Some(match cmd {
-        Char(c) => format!("char {}", *c as u32),
-        Face(f) => {
-            let a = f.attrs;
-            format!(
-                "face {} {} {} {} {} {} {} {}",
-                color_tok(f.fg),
-                color_tok(f.bg),
-                under_num(a.underline()),
-                bit(a.contains(FaceAttrs::BOLD)),
-                bit(a.contains(FaceAttrs::ITALIC)),
-                bit(a.contains(FaceAttrs::BLINK)),
-                bit(a.contains(FaceAttrs::REVERSE)),
-                bit(a.contains(FaceAttrs::STRIKE))
-            )
-        }
-        FaceModify(m) => format!(
-            "faceModify {} {} {} {} {} {} {} {} {}",
-            bit(m.reset),
-            color_tok(m.fg),
-            color_tok(m.bg),
-            m.underline.map(|u| under_num(u).to_string()).unwrap_or("-".into()),
-            color_tok(m.underline_color),
-            tri(m.bold),
-            tri(m.italic),
-            tri(m.blink),
-            tri(m.strike)
-        ),
-        FaceGet => "faceGet".into(),
-        DecModeSet { enable, mode } => format!("decModeSet {} {}", bit(*enable), *mode as usize),
-        DecModeGet(mode) => format!("decModeGet {}", *mode as usize),
-        CursorGet => "cursorGet".into(),
-        CursorTo(p) => format!("cursorTo {} {}", p.row, p.col),
-        CursorMove { row, col } => format!("cursorMove {row} {col}"),
-        CursorSave => "cursorSave".into(),
-        CursorRestore => "cursorRestore".into(),
-        EraseLineLeft => "eraseLineLeft".into(),
-        EraseLineRight => "eraseLineRight".into(),
-        EraseLine => "eraseLine".into(),
-        EraseScreen => "eraseScreen".into(),
-        EraseChars(n) => format!("eraseChars {n}"),
-        Scroll(n) => format!("scroll {n}"),
-        ScrollRegion { start, end } => format!("scrollRegion {start} {end}"),
-        Reset => "reset".into(),
-        Termcap(names) => format!(
-            "termcap {}",
-            if names.is_empty() {
-                "-".to_string()
-            } else {
-                names.iter().map(|n| hex(n.as_bytes())).collect::<Vec<_>>().join(",")
-            }
-        ),
-        Color { name, color } => format!(
-            "color {} {}",
-            match name {
-                TerminalColor::Background => "bg".to_string(),
-                TerminalColor::Foreground => "fg".to_string(),
-                TerminalColor::Palette(i) => i.to_string(),
-            },
-            color_tok(*color)
-        ),
-        Title(t) => format!("title {}", hex(t.as_bytes())),
-        DeviceAttrs => "deviceAttrs".into(),
-        KeyboardLevel(n) => format!("keyboardLevel {n}"),
-        _ => return None,
-    })
+#[derive(Clone, Debug, PartialEq)]
+enum ColorName {
+    Bg,
+    Fg,
+    Pal(usize),
 }
 
-fn rnd_color(rng: &mut Rng) -> RGBA {
+/// a command as raw pieces
+#[derive(Clone, Debug, PartialEq)]
+enum Spec {
+    Char(char),
+    Face { fg: Option<Rgba>, bg: Option<Rgba>, under: usize, flags: [bool; 5] },
+    /// `tri` = bold, italic, blink, strike
+    Modify { reset: bool, fg: Option<Rgba>, bg: Option<Rgba>, underline: Option<usize>, ulc: Option<Rgba>, tri: [Option<bool>; 4] },
+    FaceGet,
+    /// index into `MODES`
+    ModeSet(bool, usize),
+    ModeGet(usize),
+    CursorGet,
+    CursorTo(usize, usize),
+    CursorMove(i32, i32),
+    CursorSave,
+    CursorRestore,
+    EraseLineLeft,
+    EraseLineRight,
+    EraseLine,
+    EraseScreen,
+    EraseChars(usize),
+    Scroll(i32),
+    ScrollRegion(usize, usize),
+    Reset,
+    Termcap(Vec<String>),
+    Color(ColorName, Option<Rgba>),
+    Title(String),
+    DeviceAttrs,
+    KeyboardLevel(usize),
+}
+
+impl Spec {
+    /// request text for the Lean side (parsed there into `SurfModel.Vt.Cmd`), from the raw pieces only
+    fn tok(&self) -> String {
+        use Spec::*;
+        match self {
+            Char(c) => format!("char {}", *c as u32),
+            Face { fg, bg, under, flags } => format!(
+                "face {} {} {} {} {} {} {} {}",
+                color_tok(*fg),
+                color_tok(*bg),
+                under,
+                bit(flags[0]),
+                bit(flags[1]),
+                bit(flags[2]),
+                bit(flags[3]),
+                bit(flags[4])
+            ),
+            Modify { reset, fg, bg, underline, ulc, tri: t } => format!(
+                "faceModify {} {} {} {} {} {} {} {} {}",
+                bit(*reset),
+                color_tok(*fg),
+                color_tok(*bg),
+                underline.map(|u| u.to_string()).unwrap_or("-".into()),
+                color_tok(*ulc),
+                tri(t[0]),
+                tri(t[1]),
+                tri(t[2]),
+                tri(t[3])
+            ),
+            FaceGet => "faceGet".into(),
+            ModeSet(enable, m) => format!("decModeSet {} {}", bit(*enable), MODES[*m].1),
+            ModeGet(m) => format!("decModeGet {}", MODES[*m].1),
+            CursorGet => "cursorGet".into(),
+            CursorTo(r, c) => format!("cursorTo {r} {c}"),
+            CursorMove(r, c) => format!("cursorMove {r} {c}"),
+            CursorSave => "cursorSave".into(),
+            CursorRestore => "cursorRestore".into(),
+            EraseLineLeft => "eraseLineLeft".into(),
+            EraseLineRight => "eraseLineRight".into(),
+            EraseLine => "eraseLine".into(),
+            EraseScreen => "eraseScreen".into(),
+            EraseChars(n) => format!("eraseChars {n}"),
+            Scroll(n) => format!("scroll {n}"),
+            ScrollRegion(s, e) => format!("scrollRegion {s} {e}"),
+            Reset => "reset".into(),
+            Termcap(names) => format!(
+                "termcap {}",
+                if names.is_empty() {
+                    "-".to_string()
+                } else {
+                    names.iter().map(|n| hex(n.as_bytes())).collect::<Vec<_>>().join(",")
+                }
+            ),
+            Color(name, c) => format!(
+                "color {} {}",
+                match name {
+                    ColorName::Bg => "bg".to_string(),
+                    ColorName::Fg => "fg".to_string(),
+                    ColorName::Pal(i) => i.to_string(),
+                },
+                color_tok(*c)
+            ),
+            Title(t) => format!("title {}", hex(t.as_bytes())),
+            DeviceAttrs => "deviceAttrs".into(),
+            KeyboardLevel(n) => format!("keyboardLevel {n}"),
+        }
+    }
+
+    /// the crate's command, through its public constructors only
+    fn build(&self) -> TerminalCommand {
+        use TerminalCommand as T;
+        match self {
+            Spec::Char(c) => T::Char(*c),
+            Spec::Face { fg, bg, under, flags } => {
+                let mut attrs: FaceAttrs = UNDERS[*under].into();
+                for (on, flag) in flags.iter().zip(FLAGS) {
+                    if *on {
+                        attrs = attrs | flag;
+                    }
+                }
+                T::Face(Face::new(rgba(*fg), rgba(*bg), attrs))
+            }
+            Spec::Modify { reset, fg, bg, underline, ulc, tri } => T::FaceModify(FaceModify {
+                reset: *reset,
+                fg: rgba(*fg),
+                bg: rgba(*bg),
+                underline: underline.map(|u| UNDERS[u]),
+                underline_color: rgba(*ulc),
+                bold: tri[0],
+                italic: tri[1],
+                blink: tri[2],
+                strike: tri[3],
+            }),
+            Spec::FaceGet => T::FaceGet,
+            Spec::ModeSet(enable, m) => T::DecModeSet { enable: *enable, mode: MODES[*m].0 },
+            Spec::ModeGet(m) => T::DecModeGet(MODES[*m].0),
+            Spec::CursorGet => T::CursorGet,
+            Spec::CursorTo(r, c) => T::CursorTo(Position::new(*r, *c)),
+            Spec::CursorMove(r, c) => T::CursorMove { row: *r, col: *c },
+            Spec::CursorSave => T::CursorSave,
+            Spec::CursorRestore => T::CursorRestore,
+            Spec::EraseLineLeft => T::EraseLineLeft,
+            Spec::EraseLineRight => T::EraseLineRight,
+            Spec::EraseLine => T::EraseLine,
+            Spec::EraseScreen => T::EraseScreen,
+            Spec::EraseChars(n) => T::EraseChars(*n),
+            Spec::Scroll(n) => T::Scroll(*n),
+            Spec::ScrollRegion(s, e) => T::ScrollRegion { start: *s, end: *e },
+            Spec::Reset => T::Reset,
+            Spec::Termcap(names) => T::Termcap(names.clone()),
+            Spec::Color(name, c) => T::Color {
+                name: match name {
+                    ColorName::Bg => TerminalColor::Background,
+                    ColorName::Fg => TerminalColor::Foreground,
+                    ColorName::Pal(i) => TerminalColor::Palette(*i),
+                },
+                color: rgba(*c),
+            },
+            Spec::Title(t) => T::Title(t.clone()),
+            Spec::DeviceAttrs => T::DeviceAttrs,
+            Spec::KeyboardLevel(n) => T::KeyboardLevel(*n),
+        }
+    }
+
+    /// domain of the property theorems (`Valid`): at least one capability name (an empty XTGETTCAP
+    /// request is read by xterm as a request for the empty name); opaque colours in OSC colour commands
+    fn in_domain(&self) -> bool {
+        match self {
+            Spec::Termcap(names) => !names.is_empty(),
+            Spec::Color(_, Some(c)) => c[3] == 255,
+            _ => true,
+        }
+    }
+
+    fn face_none() -> Spec {
+        Spec::Face { fg: None, bg: None, under: 0, flags: [false; 5] }
+    }
+    fn modify_none() -> Spec {
+        Spec::Modify { reset: false, fg: None, bg: None, underline: None, ulc: None, tri: [None; 4] }
+    }
+}
+
+/// one call: writer room, raw command, its request text and the crate value
+#[derive(Clone)]
+struct Item {
+    room: Option<usize>,
+    spec: Spec,
+    tok: String,
+    cmd: TerminalCommand,
+}
+impl Item {
+    fn new(room: Option<usize>, spec: Spec) -> Item {
+        let tok = spec.tok();
+        let cmd = spec.build();
+        Item { room, spec, tok, cmd }
+    }
+}
+
+fn rnd_color(rng: &mut Rng) -> Rgba {
     let edge = [0u8, 1, 8, 47, 95, 128, 135, 254, 255];
     let ch = |rng: &mut Rng| if rng.chance(1, 3) { *rng.pick(&edge) } else { rng.below(256) as u8 };
     // alpha: mostly opaque; translucent and transparent colours are legal `Face` colours (the
@@ -280,18 +437,15 @@ fn rnd_color(rng: &mut Rng) -> RGBA {
         1 => rng.below(256) as u8,
         _ => 255,
     };
-    RGBA::new(ch(rng), ch(rng), ch(rng), a)
+    [ch(rng), ch(rng), ch(rng), a]
 }
-fn opt_color(rng: &mut Rng) -> Option<RGBA> {
+fn opt_color(rng: &mut Rng) -> Option<Rgba> {
     if rng.chance(1, 3) { None } else { Some(rnd_color(rng)) }
 }
 /// colour of an OSC colour command: opaque (a translucent colour prints as `#rrggbbaa`, which is
 /// outside the domain `Valid` of the property theorem: xterm's colour syntax has no alpha)
-fn opt_opaque(rng: &mut Rng) -> Option<RGBA> {
-    opt_color(rng).map(|c| {
-        let [r, g, b, _] = c.to_rgba();
-        RGBA::new(r, g, b, 255)
-    })
+fn opt_opaque(rng: &mut Rng) -> Option<Rgba> {
+    opt_color(rng).map(|[r, g, b, _]| [r, g, b, 255])
 }
 fn rnd_usize(rng: &mut Rng) -> usize {
     match rng.below(6) {
@@ -360,14 +514,13 @@ fn rnd_name(rng: &mut Rng) -> String {
     }
 }
 
-fn rnd_face(rng: &mut Rng) -> Face {
-    let mut attrs: FaceAttrs = (*rng.pick(&UNDERS)).into();
-    for f in [FaceAttrs::BOLD, FaceAttrs::ITALIC, FaceAttrs::BLINK, FaceAttrs::REVERSE, FaceAttrs::STRIKE] {
-        if rng.chance(1, 3) {
-            attrs = attrs.insert(f);
-        }
+fn rnd_face(rng: &mut Rng) -> Spec {
+    let under = rng.below(6) as usize;
+    let mut flags = [false; 5];
+    for f in flags.iter_mut() {
+        *f = rng.chance(1, 3);
     }
-    Face::new(opt_color(rng), opt_color(rng), attrs)
+    Spec::Face { fg: opt_color(rng), bg: opt_color(rng), under, flags }
 }
 fn rnd_tri(rng: &mut Rng) -> Option<bool> {
     match rng.below(3) {
@@ -376,32 +529,30 @@ fn rnd_tri(rng: &mut Rng) -> Option<bool> {
         _ => Some(false),
     }
 }
-fn rnd_modify(rng: &mut Rng) -> FaceModify {
-    FaceModify {
+fn rnd_modify(rng: &mut Rng) -> Spec {
+    Spec::Modify {
         reset: rng.chance(1, 3),
         fg: opt_color(rng),
         bg: opt_color(rng),
-        underline: if rng.chance(1, 3) { None } else { Some(*rng.pick(&UNDERS)) },
-        underline_color: if rng.chance(1, 2) { None } else { Some(rnd_color(rng)) },
-        bold: rnd_tri(rng),
-        italic: rnd_tri(rng),
-        blink: rnd_tri(rng),
-        strike: rnd_tri(rng),
+        underline: if rng.chance(1, 3) { None } else { Some(rng.below(6) as usize) },
+        ulc: if rng.chance(1, 2) { None } else { Some(rnd_color(rng)) },
+        tri: [rnd_tri(rng), rnd_tri(rng), rnd_tri(rng), rnd_tri(rng)],
     }
 }
 
-fn rnd_cmd(rng: &mut Rng) -> TerminalCommand {
-    use TerminalCommand::*;
+fn rnd_cmd(rng: &mut Rng) -> Spec {
+    use Spec::*;
+    let nmodes = MODES.len() as u64;
     match rng.below(26) {
         0 => Char(rnd_char(rng)),
-        1 | 2 | 3 => Face(rnd_face(rng)),
-        4 | 5 | 6 => FaceModify(rnd_modify(rng)),
+        1 | 2 | 3 => rnd_face(rng),
+        4 | 5 | 6 => rnd_modify(rng),
         7 => FaceGet,
-        8 => DecModeSet { enable: rng.chance(1, 2), mode: *rng.pick(&MODES) },
-        9 => DecModeGet(*rng.pick(&MODES)),
+        8 => ModeSet(rng.chance(1, 2), rng.below(nmodes) as usize),
+        9 => ModeGet(rng.below(nmodes) as usize),
         10 => CursorGet,
-        11 => CursorTo(Position::new(rnd_usize(rng), rnd_usize(rng))),
-        12 => CursorMove { row: rnd_i32(rng), col: rnd_i32(rng) },
+        11 => CursorTo(rnd_usize(rng), rnd_usize(rng)),
+        12 => CursorMove(rnd_i32(rng), rnd_i32(rng)),
         13 => if rng.chance(1, 2) { CursorSave } else { CursorRestore },
         14 => match rng.below(4) {
             0 => EraseLineLeft,
@@ -411,46 +562,47 @@ fn rnd_cmd(rng: &mut Rng) -> TerminalCommand {
         },
         15 => EraseChars(rnd_usize(rng)),
         16 => Scroll(rnd_i32(rng)),
-        17 => ScrollRegion { start: rnd_usize(rng), end: rnd_usize(rng) },
+        17 => ScrollRegion(rnd_usize(rng), rnd_usize(rng)),
         18 => Reset,
         19 => Termcap((0..rng.below(4)).map(|_| rnd_name(rng)).collect()),
-        20 | 21 => Color {
-            name: match rng.below(4) {
-                0 => TerminalColor::Background,
-                1 => TerminalColor::Foreground,
-                2 => TerminalColor::Palette(rng.below(300) as usize),
-                _ => TerminalColor::Palette(rnd_usize(rng)),
+        20 | 21 => Color(
+            match rng.below(4) {
+                0 => ColorName::Bg,
+                1 => ColorName::Fg,
+                2 => ColorName::Pal(rng.below(300) as usize),
+                _ => ColorName::Pal(rnd_usize(rng)),
             },
             // one in eight translucent: outside the domain of the property (no oracle line), but the
             // model's `#rrggbbaa` branch stays tied to the code by the correspondence line
-            color: if rng.chance(1, 8) { opt_color(rng) } else { opt_opaque(rng) },
-        },
+            if rng.chance(1, 8) { opt_color(rng) } else { opt_opaque(rng) },
+        ),
         22 => Title(rnd_title(rng)),
         23 => DeviceAttrs,
         24 => KeyboardLevel(if rng.chance(1, 2) { rng.below(40) as usize } else { rnd_usize(rng) }),
-        _ => DecModeSet { enable: rng.chance(1, 2), mode: DecMode::AltScreen },
+        _ => ModeSet(rng.chance(1, 2), ALT_SCREEN),
     }
 }
 
-fn corner_cmds() -> Vec<TerminalCommand> {
-    use TerminalCommand::*;
+fn corner_cmds() -> Vec<Spec> {
+    use Spec::*;
     let mut v = vec![
         Scroll(i32::MIN),
         Scroll(i32::MAX),
         Scroll(0),
         Scroll(-1),
-        CursorMove { row: i32::MIN, col: i32::MIN },
-        CursorMove { row: i32::MAX, col: i32::MIN },
-        CursorMove { row: 0, col: 0 },
-        CursorMove { row: -1, col: 1 },
-        CursorTo(Position::new(usize::MAX, usize::MAX)),
-        CursorTo(Position::new(usize::MAX - 1, usize::MAX - 1)),
-        CursorTo(Position::new(0, 0)),
-        ScrollRegion { start: usize::MAX - 1, end: usize::MAX },
-        ScrollRegion { start: usize::MAX - 2, end: usize::MAX - 1 },
-        ScrollRegion { start: 5, end: 5 },
-        ScrollRegion { start: 6, end: 5 },
-        ScrollRegion { start: 0, end: 1 },
+        CursorMove(i32::MIN, i32::MIN),
+        CursorMove(i32::MAX, i32::MIN),
+        CursorMove(0, 0),
+        CursorMove(-1, 1),
+        CursorTo(usize::MAX, usize::MAX),
+        CursorTo(usize::MAX - 1, usize::MAX - 1),
+        CursorTo(0, 0),
+        CursorTo(3, 7),
+        ScrollRegion(usize::MAX - 1, usize::MAX),
+        ScrollRegion(usize::MAX - 2, usize::MAX - 1),
+        ScrollRegion(5, 5),
+        ScrollRegion(6, 5),
+        ScrollRegion(0, 1),
         EraseChars(0),
         EraseChars(usize::MAX),
         Termcap(vec![]),
@@ -459,37 +611,36 @@ fn corner_cmds() -> Vec<TerminalCommand> {
         Termcap(vec!["é".into(), "名\u{1f600}".into(), "\u{7f}\u{80}ÿ".into()]),
         Title(String::new()),
         Title("x;y".into()),
-        FaceModify(surf_n_term::FaceModify::default()),
-        FaceModify(surf_n_term::FaceModify { bold: Some(false), ..Default::default() }),
-        FaceModify(surf_n_term::FaceModify { underline: Some(UnderlineStyle::None), ..Default::default() }),
-        FaceModify(surf_n_term::FaceModify { underline_color: Some(RGBA::new(1, 2, 3, 255)), ..Default::default() }),
-        Face(surf_n_term::Face::default()),
-        Face(surf_n_term::Face::new(Some(RGBA::new(200, 100, 50, 0)), Some(RGBA::new(200, 100, 50, 128)), FaceAttrs::EMPTY)),
+        Spec::modify_none(),
+        Modify { reset: false, fg: None, bg: None, underline: None, ulc: None, tri: [Some(false), None, None, None] },
+        Modify { reset: false, fg: None, bg: None, underline: Some(0), ulc: None, tri: [None; 4] },
+        Modify { reset: false, fg: None, bg: None, underline: None, ulc: Some([1, 2, 3, 255]), tri: [None; 4] },
+        Spec::face_none(),
+        Face { fg: Some([200, 100, 50, 0]), bg: Some([200, 100, 50, 128]), under: 0, flags: [false; 5] },
         KeyboardLevel(0),
         KeyboardLevel(usize::MAX),
-        Color { name: TerminalColor::Palette(usize::MAX), color: None },
+        Color(ColorName::Pal(usize::MAX), None),
+        Color(ColorName::Bg, None),
+        Color(ColorName::Fg, Some([1, 2, 3, 255])),
     ];
-    for mode in MODES {
+    for m in 0..MODES.len() {
         for enable in [false, true] {
-            v.push(DecModeSet { enable, mode });
+            v.push(ModeSet(enable, m));
         }
-        v.push(DecModeGet(mode));
+        v.push(ModeGet(m));
     }
-    for u in UNDERS {
-        v.push(Face(surf_n_term::Face::new(None, None, u.into())));
-        v.push(FaceModify(surf_n_term::FaceModify { underline: Some(u), ..Default::default() }));
+    // every underline style x every single flag, all flags, no flag; every style in a modification
+    for under in 0..6 {
+        v.push(Face { fg: None, bg: None, under, flags: [false; 5] });
+        v.push(Face { fg: None, bg: None, under, flags: [true; 5] });
+        for k in 0..5 {
+            let mut flags = [false; 5];
+            flags[k] = true;
+            v.push(Face { fg: None, bg: None, under, flags });
+        }
+        v.push(Modify { reset: false, fg: None, bg: None, underline: Some(under), ulc: None, tri: [None; 4] });
     }
     v
-}
-
-/// domain of the property theorems (`Valid`): at least one capability name (an empty XTGETTCAP
-/// request is read by xterm as a request for the empty name); opaque colours in OSC colour commands
-fn in_domain(cmd: &TerminalCommand) -> bool {
-    match cmd {
-        TerminalCommand::Termcap(names) => !names.is_empty(),
-        TerminalCommand::Color { color: Some(c), .. } => c.to_rgba()[3] == 255,
-        _ => true,
-    }
 }
 
 /// Rust-side oracle on the implementation's bytes: in 256-colour mode every indexed colour selection
@@ -506,7 +657,7 @@ fn palette_range_failures(depth: ColorDepth, bytes: &[u8]) -> Option<u64> {
 }
 
 // ---------------------------------------------------------------------------------------------
-// replay: request text -> command
+// replay: request text -> raw command
 
 fn unhex(s: &str) -> Option<Vec<u8>> {
     if s == "-" {
@@ -517,7 +668,7 @@ fn unhex(s: &str) -> Option<Vec<u8>> {
     }
     (0..s.len() / 2).map(|i| u8::from_str_radix(s.get(2 * i..2 * i + 2)?, 16).ok()).collect()
 }
-fn parse_color(s: &str) -> Option<Option<RGBA>> {
+fn parse_color(s: &str) -> Option<Option<Rgba>> {
     if s == "-" {
         return Some(None);
     }
@@ -525,7 +676,7 @@ fn parse_color(s: &str) -> Option<Option<RGBA>> {
     if v.len() != 4 {
         return None;
     }
-    Some(Some(RGBA::new(v[0], v[1], v[2], v[3])))
+    Some(Some([v[0], v[1], v[2], v[3]]))
 }
 fn parse_tri(s: &str) -> Option<Option<bool>> {
     match s {
@@ -538,47 +689,39 @@ fn parse_tri(s: &str) -> Option<Option<bool>> {
 fn parse_bit(s: &str) -> Option<bool> {
     parse_tri(s)?
 }
-fn parse_mode(s: &str) -> Option<DecMode> {
+/// mode number (of the harness' table) -> index into `MODES`
+fn parse_mode(s: &str) -> Option<usize> {
     let n: usize = s.parse().ok()?;
-    MODES.iter().copied().find(|m| *m as usize == n)
+    MODES.iter().position(|(_, k)| *k == n)
 }
-/// inverse of `cmd_tok`
-fn parse_cmd(t: &[&str]) -> Option<TerminalCommand> {
-    use TerminalCommand::*;
+fn parse_under(s: &str) -> Option<usize> {
+    s.parse::<usize>().ok().filter(|u| *u < 6)
+}
+/// inverse of `Spec::tok`
+fn parse_cmd(t: &[&str]) -> Option<Spec> {
+    use Spec::*;
     Some(match t {
         ["char", cp] => Char(char::from_u32(cp.parse().ok()?)?),
-        ["face", fg, bg, under, bold, italic, blink, reverse, strike] => {
-            let mut attrs: FaceAttrs = (*UNDERS.get(under.parse::<usize>().ok()?)?).into();
-            for (on, flag) in [
-                (bold, FaceAttrs::BOLD),
-                (italic, FaceAttrs::ITALIC),
-                (blink, FaceAttrs::BLINK),
-                (reverse, FaceAttrs::REVERSE),
-                (strike, FaceAttrs::STRIKE),
-            ] {
-                if parse_bit(on)? {
-                    attrs = attrs.insert(flag);
-                }
-            }
-            Face(surf_n_term::Face::new(parse_color(fg)?, parse_color(bg)?, attrs))
-        }
-        ["faceModify", reset, fg, bg, ul, ulc, bold, italic, blink, strike] => FaceModify(surf_n_term::FaceModify {
+        ["face", fg, bg, under, bold, italic, blink, reverse, strike] => Face {
+            fg: parse_color(fg)?,
+            bg: parse_color(bg)?,
+            under: parse_under(under)?,
+            flags: [parse_bit(bold)?, parse_bit(italic)?, parse_bit(blink)?, parse_bit(reverse)?, parse_bit(strike)?],
+        },
+        ["faceModify", reset, fg, bg, ul, ulc, bold, italic, blink, strike] => Modify {
             reset: parse_bit(reset)?,
             fg: parse_color(fg)?,
             bg: parse_color(bg)?,
-            underline: if *ul == "-" { None } else { Some(*UNDERS.get(ul.parse::<usize>().ok()?)?) },
-            underline_color: parse_color(ulc)?,
-            bold: parse_tri(bold)?,
-            italic: parse_tri(italic)?,
-            blink: parse_tri(blink)?,
-            strike: parse_tri(strike)?,
-        }),
+            underline: if *ul == "-" { None } else { Some(parse_under(ul)?) },
+            ulc: parse_color(ulc)?,
+            tri: [parse_tri(bold)?, parse_tri(italic)?, parse_tri(blink)?, parse_tri(strike)?],
+        },
         ["faceGet"] => FaceGet,
-        ["decModeSet", e, m] => DecModeSet { enable: parse_bit(e)?, mode: parse_mode(m)? },
-        ["decModeGet", m] => DecModeGet(parse_mode(m)?),
+        ["decModeSet", e, m] => ModeSet(parse_bit(e)?, parse_mode(m)?),
+        ["decModeGet", m] => ModeGet(parse_mode(m)?),
         ["cursorGet"] => CursorGet,
-        ["cursorTo", r, c] => CursorTo(Position::new(r.parse().ok()?, c.parse().ok()?)),
-        ["cursorMove", r, c] => CursorMove { row: r.parse().ok()?, col: c.parse().ok()? },
+        ["cursorTo", r, c] => CursorTo(r.parse().ok()?, c.parse().ok()?),
+        ["cursorMove", r, c] => CursorMove(r.parse().ok()?, c.parse().ok()?),
         ["cursorSave"] => CursorSave,
         ["cursorRestore"] => CursorRestore,
         ["eraseLineLeft"] => EraseLineLeft,
@@ -587,27 +730,28 @@ fn parse_cmd(t: &[&str]) -> Option<TerminalCommand> {
         ["eraseScreen"] => EraseScreen,
         ["eraseChars", n] => EraseChars(n.parse().ok()?),
         ["scroll", n] => Scroll(n.parse().ok()?),
-        ["scrollRegion", s, e] => ScrollRegion { start: s.parse().ok()?, end: e.parse().ok()? },
+        ["scrollRegion", s, e] => ScrollRegion(s.parse().ok()?, e.parse().ok()?),
         ["reset"] => Reset,
         ["termcap", names] => Termcap(if *names == "-" {
             vec![]
         } else {
             names.split(',').map(|n| String::from_utf8(unhex(n)?).ok()).collect::<Option<Vec<_>>>()?
         }),
-        ["color", name, c] => Color {
-            name: match *name {
-                "bg" => TerminalColor::Background,
-                "fg" => TerminalColor::Foreground,
-                i => TerminalColor::Palette(i.parse().ok()?),
+        ["color", name, c] => Color(
+            match *name {
+                "bg" => ColorName::Bg,
+                "fg" => ColorName::Fg,
+                i => ColorName::Pal(i.parse().ok()?),
             },
-            color: parse_color(c)?,
-        },
+            parse_color(c)?,
+        ),
         ["title", t] => Title(String::from_utf8(unhex(t)?).ok()?),
         ["deviceAttrs"] => DeviceAttrs,
         ["keyboardLevel", n] => KeyboardLevel(n.parse().ok()?),
         _ => return None,
     })
 }
+/// capability sets by their token: `T`rue colour / `E`ight bit / `G`rey, `k`itty keyboard / `n`one
 fn parse_caps(s: &str) -> Option<(TerminalCaps, String)> {
     let mut it = s.chars();
     let depth = match it.next()? {
@@ -624,17 +768,17 @@ fn parse_caps(s: &str) -> Option<(TerminalCaps, String)> {
     Some((TerminalCaps { depth, glyphs: false, kitty_keyboard: kitty }, s.to_string()))
 }
 /// items `[@k] cmd…` separated by `|`
-fn parse_items(t: &[&str]) -> Option<Vec<(Option<usize>, TerminalCommand)>> {
+fn parse_items(t: &[&str]) -> Option<Vec<Item>> {
     t.split(|x| *x == "|")
         .map(|item| match item.first() {
-            Some(k) if k.starts_with('@') => Some((Some(k[1..].parse().ok()?), parse_cmd(&item[1..])?)),
-            _ => Some((None, parse_cmd(item)?)),
+            Some(k) if k.starts_with('@') => Some(Item::new(Some(k[1..].parse().ok()?), parse_cmd(&item[1..])?)),
+            _ => Some(Item::new(None, parse_cmd(item)?)),
         })
         .collect()
 }
 /// the recorded input of a replay file: capability token and the items of a stream (a single command
 /// is a stream of one)
-fn replay_input(r: &Value) -> Option<(String, Vec<(Option<usize>, TerminalCommand)>)> {
+fn replay_input(r: &Value) -> Option<(String, Vec<Item>)> {
     let mut inputs: Vec<Value> = vec![r["failure"]["input"].clone()];
     for b in r["broken"].as_array().cloned().unwrap_or_default() {
         for f in b["first"].as_array().cloned().unwrap_or_default() {
@@ -687,8 +831,9 @@ struct Run {
 
 impl Run {
     /// one command on a fresh encoder under one capability set
-    fn single(&mut self, caps: TerminalCaps, caps_tok: &str, cmd: &TerminalCommand, tok: &str) {
+    fn single(&mut self, caps: TerminalCaps, caps_tok: &str, item: &Item) {
         let out = &mut self.out;
+        let tok = &item.tok;
         let key = format!("{caps_tok} {tok}");
         let fresh = self.seen.insert(key.clone());
         out.case(&key, true);
@@ -696,7 +841,7 @@ impl Run {
             return;
         }
         out.hist(tok.split(' ').next().unwrap_or(""));
-        match enc(caps.clone(), cmd.clone()) {
+        match enc(caps.clone(), item.cmd.clone()) {
             Err(()) => {
                 out.corr(&format!("c05 encode {caps_tok} {tok}"), "panic-or-error");
                 out.fail(
@@ -709,7 +854,7 @@ impl Run {
             Ok(bytes) => {
                 let hx = hex(&bytes);
                 out.corr(&format!("c05 encode {caps_tok} {tok}"), &hx);
-                if in_domain(cmd) {
+                if item.spec.in_domain() {
                     out.oracle(&format!("c05 check {caps_tok} {hx} {tok}"), "ok");
                 }
                 if let Some(n) = palette_range_failures(caps.depth, &bytes) {
@@ -727,23 +872,20 @@ impl Run {
         }
     }
 
-    /// a stream of commands through ONE encoder; item `(room, cmd)` writes to a writer that accepts
-    /// `room` bytes (`None`: any number)
-    fn stream(&mut self, caps: TerminalCaps, caps_tok: &str, items: &[(Option<usize>, TerminalCommand)]) {
+    /// a stream of commands through ONE encoder; an item with `room = Some(k)` writes to a writer that
+    /// accepts `k` bytes (`None`: any number)
+    fn stream(&mut self, caps: TerminalCaps, caps_tok: &str, items: &[Item]) {
         let out = &mut self.out;
-        let toks: Vec<String> = items
-            .iter()
-            .filter_map(|(room, cmd)| {
-                let t = cmd_tok(cmd)?;
-                Some(match room {
-                    Some(k) => format!("@{k} {t}"),
-                    None => t,
-                })
-            })
-            .collect();
-        if toks.len() != items.len() || items.is_empty() {
+        if items.is_empty() {
             return;
         }
+        let toks: Vec<String> = items
+            .iter()
+            .map(|i| match i.room {
+                Some(k) => format!("@{k} {}", i.tok),
+                None => i.tok.clone(),
+            })
+            .collect();
         let text = toks.join(" | ");
         let key = format!("stream {caps_tok} {text}");
         out.case(&key, true);
@@ -757,9 +899,9 @@ impl Run {
         let mut good_bytes: Vec<u8> = Vec::new();
         let mut good_cmds: Vec<String> = Vec::new();
         let mut all_in_domain = true;
-        for (i, (room, cmd)) in items.iter().enumerate() {
-            let mut w = Limited { out: Vec::new(), room: *room };
-            let res = guarded(|| encoder.encode(&mut w, cmd.clone()));
+        for (i, item) in items.iter().enumerate() {
+            let mut w = Limited { out: Vec::new(), room: item.room };
+            let res = guarded(|| encoder.encode(&mut w, item.cmd.clone()));
             match res {
                 Err(()) => {
                     out.corr(&format!("c05 stream {caps_tok} {text}"), "panic");
@@ -773,7 +915,7 @@ impl Run {
                 }
                 Ok(r) => {
                     let ok = r.is_ok();
-                    if !ok && room.is_none() {
+                    if !ok && item.room.is_none() {
                         out.fail(
                             "encode returned an error on an infallible writer",
                             json!({"caps": caps_tok, "stream": text, "index": i}),
@@ -784,8 +926,8 @@ impl Run {
                     answer.push(format!("{}{}", hex(&w.out), if ok { "" } else { "!" }));
                     if ok {
                         good_bytes.extend_from_slice(&w.out);
-                        good_cmds.push(cmd_tok(cmd).unwrap_or_default());
-                        all_in_domain &= in_domain(cmd);
+                        good_cmds.push(item.tok.clone());
+                        all_in_domain &= item.spec.in_domain();
                     } else {
                         out.hist("stream-failed-write");
                     }
@@ -814,47 +956,47 @@ impl Run {
 /// commands of a stream: faces and face modifications (the arms that use the encoder's chunk buffer)
 /// half of the time, anything else otherwise; a command is sometimes repeated verbatim (an encoder that
 /// remembers the last face must still emit it again); some calls get a writer that fails early
-fn rnd_stream(rng: &mut Rng, max_len: u64) -> Vec<(Option<usize>, TerminalCommand)> {
+fn rnd_stream(rng: &mut Rng, max_len: u64) -> Vec<Item> {
     let n = 1 + rng.below(max_len);
-    let mut items: Vec<(Option<usize>, TerminalCommand)> = Vec::new();
+    let mut items: Vec<Item> = Vec::new();
     for _ in 0..n {
-        let cmd = if !items.is_empty() && rng.chance(1, 5) {
-            items[rng.below(items.len() as u64) as usize].1.clone()
+        let spec = if !items.is_empty() && rng.chance(1, 5) {
+            items[rng.below(items.len() as u64) as usize].spec.clone()
         } else if rng.chance(1, 2) {
-            if rng.chance(1, 2) { TerminalCommand::Face(rnd_face(rng)) } else { TerminalCommand::FaceModify(rnd_modify(rng)) }
+            if rng.chance(1, 2) { rnd_face(rng) } else { rnd_modify(rng) }
         } else {
             loop {
                 let c = rnd_cmd(rng);
-                if in_domain(&c) {
+                if c.in_domain() {
                     break c;
                 }
             }
         };
         let top = if rng.chance(1, 2) { 8 } else { 64 };
         let room = if rng.chance(1, 6) { Some(rng.below(top) as usize) } else { None };
-        items.push((room, cmd));
+        items.push(Item::new(room, spec));
     }
     items
 }
 
-fn corner_streams() -> Vec<Vec<(Option<usize>, TerminalCommand)>> {
-    use TerminalCommand::*;
-    let red = RGBA::new(255, 0, 0, 255);
-    let f1 = surf_n_term::Face::new(Some(red), Some(RGBA::new(0, 0, 255, 255)), FaceAttrs::BOLD | FaceAttrs::ITALIC);
-    let f2 = surf_n_term::Face::new(None, None, UnderlineStyle::Curly.into());
-    let m1 = surf_n_term::FaceModify { bold: Some(false), fg: Some(red), ..Default::default() };
-    let m0 = surf_n_term::FaceModify::default();
+fn corner_streams() -> Vec<Vec<Item>> {
+    let red = Some([255u8, 0, 0, 255]);
+    let f1 = Spec::Face { fg: red, bg: Some([0, 0, 255, 255]), under: 0, flags: [true, true, false, false, false] };
+    let f2 = Spec::Face { fg: None, bg: None, under: 3, flags: [false; 5] };
+    let m1 = Spec::Modify { reset: false, fg: red, bg: None, underline: None, ulc: None, tri: [Some(false), None, None, None] };
+    let m0 = Spec::modify_none();
+    let it = |room: Option<usize>, s: &Spec| Item::new(room, s.clone());
     let mut v = vec![
-        vec![(None, Face(f1)), (None, Face(f1))],
-        vec![(None, Face(f1)), (None, Face(f2)), (None, Face(f1))],
-        vec![(None, Face(f1)), (None, FaceModify(m0)), (None, FaceModify(m1)), (None, FaceModify(m0))],
-        vec![(None, FaceModify(m1)), (None, FaceModify(m1)), (None, Face(f2))],
-        vec![(None, Face(f1)), (None, CursorTo(Position::new(3, 4))), (None, Char('x')), (None, Face(f1))],
+        vec![it(None, &f1), it(None, &f1)],
+        vec![it(None, &f1), it(None, &f2), it(None, &f1)],
+        vec![it(None, &f1), it(None, &m0), it(None, &m1), it(None, &m0)],
+        vec![it(None, &m1), it(None, &m1), it(None, &f2)],
+        vec![it(None, &f1), it(None, &Spec::CursorTo(3, 4)), it(None, &Spec::Char('x')), it(None, &f1)],
     ];
     // a writer that fails after k bytes of the first Face, for every k; the next commands must be whole
     for k in 0..40 {
-        v.push(vec![(Some(k), Face(f1)), (None, Face(f2)), (None, FaceModify(m1)), (None, FaceModify(m0))]);
-        v.push(vec![(Some(k), FaceModify(m1)), (None, FaceModify(m0)), (None, FaceModify(m1))]);
+        v.push(vec![it(Some(k), &f1), it(None, &f2), it(None, &m1), it(None, &m0)]);
+        v.push(vec![it(Some(k), &m1), it(None, &m0), it(None, &m1)]);
     }
     v
 }
@@ -864,6 +1006,7 @@ fn main() {
     verif_harness::silence_panics();
     let mut rng = Rng::new(cfg.seed);
     let mut run = Run { out: cfg.out(), seen: HashSet::new() };
+    // capability sets and their tokens: the pairing is written here, not derived from the crate
     let depths = [(ColorDepth::TrueColor, 'T'), (ColorDepth::EightBit, 'E'), (ColorDepth::Gray, 'G')];
     let mut all_caps: Vec<(TerminalCaps, String)> = Vec::new();
     for (depth, dc) in depths {
@@ -874,7 +1017,7 @@ fn main() {
             ));
         }
     }
-    let rule = "white-box corner commands first, then random commands of every kind (extreme usize / i32 parameters, every DEC mode, every underline style x attribute combination, colours with channel values at cube/grey boundaries and any alpha, printable scalar values from every UTF-8 length class, titles of up to 200 printable characters incl. `;` `:` `[` `\\`, capability names of any printable ASCII, keyboard levels and palette indices up to usize::MAX), each on a fresh encoder under 3 colour depths x kitty keyboard on/off; then streams of 1..12 (thorough: 1..24) commands through ONE reused encoder per stream (half of them Face/FaceModify, repeated commands, one call in six to a writer failing after k bytes); distinct by (caps, command text) / (caps, stream text)";
+    let rule = "commands are generated as raw pieces (underline style index, flag booleans, colour bytes, DEC mode as index into the harness' own table of xterm mode numbers) from which both the crate value (public constructors) and the model request are written; white-box corner commands first (every DEC mode set/reset/query, every underline style x every flag), then random commands of every kind (extreme usize / i32 parameters, every DEC mode, every underline style x attribute combination, colours with channel values at cube/grey boundaries and any alpha, printable scalar values from every UTF-8 length class, titles of up to 200 printable characters incl. `;` `:` `[` `\\`, capability names of any printable ASCII and non-ASCII text, keyboard levels and palette indices up to usize::MAX), each on a fresh encoder under 3 colour depths x kitty keyboard on/off; then streams of 1..12 (thorough: 1..24) commands through ONE reused encoder per stream (half of them Face/FaceModify, repeated commands, one call in six to a writer failing after k bytes); distinct by (caps, command text) / (caps, stream text)";
 
     if let Some(r) = &cfg.replay {
         // re-run exactly the recorded command or stream: real encoder, correspondence line, oracle line
@@ -882,10 +1025,8 @@ fn main() {
             Some((caps_tok, items)) => {
                 if let Some((caps, caps_tok)) = parse_caps(&caps_tok) {
                     run.out.sample(json!({"replay": r["failure"]["input"], "items": items.len()}));
-                    if items.len() == 1 && items[0].0.is_none() {
-                        if let Some(tok) = cmd_tok(&items[0].1) {
-                            run.single(caps.clone(), &caps_tok, &items[0].1, &tok);
-                        }
+                    if items.len() == 1 && items[0].room.is_none() {
+                        run.single(caps.clone(), &caps_tok, &items[0]);
                     }
                     run.stream(caps, &caps_tok, &items);
                 }
@@ -896,11 +1037,10 @@ fn main() {
         return;
     }
 
-    for cmd in corner_cmds() {
-        if let Some(tok) = cmd_tok(&cmd) {
-            for (caps, caps_tok) in &all_caps {
-                run.single(caps.clone(), caps_tok, &cmd, &tok);
-            }
+    for spec in corner_cmds() {
+        let item = Item::new(None, spec);
+        for (caps, caps_tok) in &all_caps {
+            run.single(caps.clone(), caps_tok, &item);
         }
     }
     for items in corner_streams() {
@@ -910,11 +1050,9 @@ fn main() {
     }
     let n = if cfg.thorough { 300_000 } else { 9_000 };
     for _ in 0..n {
-        let cmd = rnd_cmd(&mut rng);
-        if let Some(tok) = cmd_tok(&cmd) {
-            for (caps, caps_tok) in &all_caps {
-                run.single(caps.clone(), caps_tok, &cmd, &tok);
-            }
+        let item = Item::new(None, rnd_cmd(&mut rng));
+        for (caps, caps_tok) in &all_caps {
+            run.single(caps.clone(), caps_tok, &item);
         }
     }
     let (ns, max_len) = if cfg.thorough { (12_000, 24) } else { (1_500, 12) };
